@@ -854,6 +854,128 @@ def run_integral(ctx, drv, case):
     return ok
 
 
+# --------------------------------------------------------------------------------------------- aliasing
+# "returns the same values ... with caching on or off, before or after a cache reset" implies that a returned array never
+# aliases the cache (or another returned array): a caller that modifies its result in place must not change later results.
+RET_WRAPPERS = ["RetFloat", "RetNpFloat", "RetList", "RetTuple", "RetNdarray", "RetNdarrayVec", "RetStoredNdarray"]
+
+
+def build_alias(name, p):
+    import sparseSpACE.Function as F
+    c = p.get("c", [1.0])
+    lin = lambda x: sum(c[i] * x[i] for i in range(len(c)))   # noqa: E731
+    if name == "RetFloat":
+        return F.CustomFunction(lambda x: float(lin(x)))
+    if name == "RetNpFloat":
+        return F.CustomFunction(lambda x: np.float64(lin(x)))
+    if name == "RetList":
+        return F.CustomFunction(lambda x: [lin(x), lin(x) + 1.0], output_length=2)
+    if name == "RetTuple":
+        return F.CustomFunction(lambda x: (lin(x), lin(x) - 1.0, 2.0), output_length=3)
+    if name == "RetNdarray":
+        return F.CustomFunction(lambda x: np.array([lin(x)]))
+    if name == "RetNdarrayVec":
+        return F.CustomFunction(lambda x: np.array([lin(x), 2.0 * lin(x)]), output_length=2)
+    if name == "RetStoredNdarray":
+        # a subclass that keeps the arrays it returned (a solver keeping its last states): eval returns the SAME object
+        class Keeps(F.Function):
+            def __init__(self):
+                super().__init__()
+                self.store = {}
+
+            def eval(self, x):
+                k = tuple(float(v) for v in x)
+                if k not in self.store:
+                    self.store[k] = np.array([lin(x), lin(x) + 0.5])
+                return self.store[k].copy()
+
+            def output_length(self):
+                return 2
+        return Keeps()
+    return build(name, p)
+
+
+def gen_alias(r, name):
+    cname = name if name in CLASSES else "CustomFunction"
+    spec = CLASSES[cname]
+    dim = r.choice(spec["dims"])
+    lo, hi = spec["dom"]
+    params = gen_params(cname, r, dim) if name in CLASSES else {"c": [dy(r, -2, 2, 4) or 1.0 for _ in range(dim)]}
+    pts = []
+    while len(pts) < 2:
+        q = [dy(r, lo, hi, r.choice([4, 8, 16])) for _ in range(dim)]
+        if q not in pts:
+            pts.append(q)
+    return {"kind": "alias", "cls": name, "dim": dim, "params": params, "pts": pts, "cache_on": r.random() < 0.6,
+            "mutation": r.choice(["arith", "nan"]), "reset_between": r.random() < 0.3}
+
+
+def mutate(arr, how):
+    """in-place modification by the caller (works for every dtype the implementation may hand out)"""
+    if how == "nan" and arr.dtype.kind == "f":
+        arr[...] = np.nan
+    else:
+        arr[...] = -3 * (np.asarray(arr, dtype=float) ** 2 + 1.0)
+
+
+def same_vals(a, b, exact):
+    a = np.ravel(np.asarray(a, dtype=float)); b = np.ravel(np.asarray(b, dtype=float))
+    if a.shape != b.shape:
+        return False
+    if exact:
+        return bool(np.array_equal(a, b))
+    sc = 1e-2 * float(np.max(np.abs(b))) if b.size else 0.0
+    return all(rel_close(x, y, 1e-12, sc) for x, y in zip(a, b))
+
+
+def run_alias(ctx, case):
+    name, params, pts, cache_on, how = case["cls"], case["params"], case["pts"], case["cache_on"], case["mutation"]
+    f = build_alias(name, params)
+    p1, p2 = tuple(float(x) for x in pts[0]), tuple(float(x) for x in pts[1])
+    if not cache_on:
+        f.deactivate_caching()
+    tags = {"cls": name, "cache_on": cache_on}
+    ok = True
+    try:
+        # (1) a mutated single result must not change the next result for the same point
+        r1 = f(p1)
+        snap = r1.copy()
+        mutate(r1, how)
+        if case.get("reset_between"):
+            pass
+        again = f(p1)
+        if not same_vals(again, snap, exact=True):
+            ok = not report(ctx, "alias-single", tags, case, {"first": snap.tolist(), "after_caller_mutation": np.asarray(again).tolist()}) and ok
+        # (2) no shared memory between two results, nor between a result and the dictionary entry
+        a1, a2 = f(p1), f(p1)
+        entry = f.f_dict.get(p1)
+        shares = bool(np.shares_memory(a1, a2)) or (isinstance(entry, np.ndarray) and bool(np.shares_memory(a1, entry)))
+        if shares:
+            ok = not report(ctx, "alias-shares-memory", tags, case, {"two_results": bool(np.shares_memory(a1, a2))}) and ok
+        # (3) a mutated batch result must not change later single or batch results
+        if case.get("reset_between"):
+            f.reset_dictionary()
+        R = f([p1, p2])
+        orig = R.copy()
+        mutate(R[0], how)
+        s1 = f(p1)
+        if not same_vals(s1, orig[0], exact=False):
+            ok = not report(ctx, "alias-batch", dict(tags, observed_by="single"), case,
+                            {"batch_row": orig[0].tolist(), "single_after_caller_mutation": np.asarray(s1).tolist()}) and ok
+        R2 = f([p1, p2])
+        if not same_vals(R2, orig, exact=True):
+            ok = not report(ctx, "alias-batch", dict(tags, observed_by="batch"), case,
+                            {"first_batch": orig.tolist(), "second_batch": np.asarray(R2).tolist()}) and ok
+        mutate(R2, how)
+        s2 = f(p2)
+        if not same_vals(s2, orig[1], exact=False):
+            ok = not report(ctx, "alias-batch", dict(tags, observed_by="single"), case,
+                            {"batch_row": orig[1].tolist(), "single_after_caller_mutation": np.asarray(s2).tolist()}) and ok
+    except Exception as e:
+        ok = not report(ctx, "alias-raises", dict(tags, error=type(e).__name__), case, {"error": str(e)[:200]}) and ok
+    return ok
+
+
 # --------------------------------------------------------------------------------------------- malformed driver lines
 def run_malformed(ctx, drv):
     for line, want in [("single 1,2", None), ("fn nosuch 1", "bad-op"), ("fn linear 1,x", "bad-op"), ("batch 1;;2", "bad-op"),
@@ -876,7 +998,8 @@ def run(ctx):
                 "the property clauses are evaluated against an independent instance; distinct by (class, parameters, ops), non-trivial if "
                 "at least one evaluation happened; (b) vectorised override vs scalar eval on 1-14 random points per case; "
                 "(c) analytic vs numeric integral (nquad 1e-11, Gauss-Legendre for polynomials) on random boxes: unit cube, unit sides, "
-                "arbitrary, origin outside" % len(CLASSES))
+                "arbitrary, origin outside; (d) aliasing: per class (and per return type of eval: float, np.float64, list, tuple, ndarray) with caching on / off, "
+                "a caller mutates a returned single / batch array in place, later results must be unchanged and share no memory" % len(CLASSES))
     ctx.assumptions.append("floating-point rounding is not modelled: values are compared at 1e-12 relative, integrals at 1e-7")
     ctx.assumptions.append("the closed forms of GenzProductPeak, GenzC0, GenzDiscontinious(2), FunctionExpVar, GenzOszillatory, GenzCornerPeak "
                            "are proved over the reals (Part C); the Float instance of the same terms is tied to Python at 1e-12")
@@ -913,6 +1036,19 @@ def run(ctx):
             run_vec(ctx, case)
             ctx.case(case, nontrivial=True)
             ctx.count("vec_" + name)
+    # (d) aliasing: results must not share memory with the cache or with each other
+    alias_names = [n for n in names if n != "CustomFunctionWrongLength"] + RET_WRAPPERS
+    alias_names = [n for n in alias_names if n in RET_WRAPPERS or n in CLASSES]
+    for rnd in range(6 if not thorough else 60):
+        for name in alias_names:
+            case = gen_alias(r, name)
+            try:
+                run_alias(ctx, case)
+            except Exception:
+                import traceback
+                ctx.corr_break("C12/harness-exception", case, traceback.format_exc()[-1500:])
+            ctx.case(case, nontrivial=True)
+            ctx.count("alias_" + ("on" if case["cache_on"] else "off"))
     # (c) analytic integrals
     budget_int = 85 if not thorough else 600
     n_int = 30 if not thorough else 300
@@ -942,6 +1078,8 @@ def replay(ctx, rp):
         ok = run_vec(ctx, case)
     elif kind == "integral":
         ok = run_integral(ctx, drv, case)
+    elif kind == "alias":
+        ok = run_alias(ctx, case)
     else:
         print("replay: unknown case kind", kind)
         return 1
